@@ -15,9 +15,16 @@ LIM = 2 ** 53
 
 def _comb_cases(nmax):
     for n in range(0, nmax + 1):
-        for k in range(0, n + 3):
+        for k in range(0, n + 3 if n >= 40 else n + 25):
             if math.comb(n, k) < LIM:
                 yield n, k
+
+
+def _call(f, *a):
+    try:
+        return int(f(*a))
+    except Exception as ex:  # an exception on a valid input is a failure, not a crash of the check
+        return "raised %r" % (ex,)
 
 
 def _search_comb(model, seed, given, nmax=140):
@@ -36,7 +43,9 @@ def _search_comb(model, seed, given, nmax=140):
     tried = 0
     for n, k in itertools.chain(cands, _comb_cases(nmax)):
         tried += 1
-        got = int(J._comb(n, k))
+        got = _call(J._comb, n, k)
+        if got == math.comb(n, k):
+            got = _call(J.comb, n, k)
         exp = math.comb(n, k)
         if got != exp:
             return {"found": True, "input": {"n": n, "k": k}, "observed": got, "expected": exp, "how": "mchap.jitutils._comb(n,k) (numba) vs math.comb(n,k); C(n,k) < 2^53", "tried": tried}
@@ -51,8 +60,8 @@ def check_comb_grid(tier, seed):
     samples = []
     for n, k in _comb_cases(nmax):
         exp = math.comb(n, k)
-        got = int(J.comb(n, k))
-        got2 = int(J._comb(n, k))
+        got = _call(J.comb, n, k)
+        got2 = _call(J._comb, n, k)
         ev += 1
         nontriv += exp > 1
         if got != exp or got2 != exp:
@@ -68,12 +77,48 @@ def check_comb_grid(tier, seed):
             exp = math.comb(n + k - 1, k) if n + k - 1 >= 0 else 0
             if exp >= LIM:
                 continue
-            got = int(J.comb_with_replacement(n, k))
+            got = _call(J.comb_with_replacement, n, k)
             ev += 1
             nontriv += exp > 1
             if got != exp and len(fails) < 3:
                 fails.append({"key": "rt/cwr_grid", "check": "mchap.jitutils.comb_with_replacement", "input": {"n": n, "k": k}, "observed": got, "expected": exp})
     return {"bound": "n <= %d, all k <= n+2 with C(n,k) < 2^53; cwr n<%d,k<20" % (nmax, 60 if tier == "quick" else 200), "evaluations": ev, "distinct_nontrivial": nontriv, "failures": fails, "samples": samples, "exhaustive": True}
+
+
+def _tup(f, *a):
+    try:
+        return tuple(int(x) for x in f(*a))
+    except Exception as ex:
+        return "raised %r" % (ex,)
+
+
+def check_index_sampled(tier, seed):
+    """random sorted tuples with large allele numbers (beyond the tables): index by exact Python
+    integers, then both directions of the mapping"""
+    rng = np.random.default_rng(seed + 11)
+    n = 3000 if tier == "quick" else 30000
+    ev = nontriv = 0
+    fails = []
+    samples = []
+    seen = set()
+    for _ in range(n):
+        ploidy = int(rng.integers(1, 9))
+        amax = int(rng.choice([5, 20, 99, 100, 101, 150, 1000, 5000]))
+        t = tuple(sorted(int(x) for x in rng.integers(0, amax + 1, size=ploidy)))
+        N = math.comb(t[-1] + ploidy, ploidy)
+        if N >= LIM or t in seen:
+            continue
+        seen.add(t)
+        idx = sum(math.comb(a + i, i + 1) for i, a in enumerate(t))
+        ev += 1
+        nontriv += len(set(t)) > 1
+        got = _call(J.genotype_alleles_as_index, np.array(t, dtype=np.int64))
+        back = _tup(J.index_as_genotype_alleles, idx, ploidy)
+        if (got != idx or back != t) and len(fails) < 3:
+            fails.append({"key": "rt/index_sampled", "check": "mchap.jitutils.index_as_genotype_alleles", "input": {"genotype": list(t), "index": idx}, "observed": {"as_index": got, "as_alleles": back}})
+        if len(samples) < 2:
+            samples.append({"genotype": list(t), "index": idx})
+    return {"bound": "%d seeded random sorted tuples, ploidy 1..8, alleles up to 5000, N < 2^53" % n, "evaluations": ev, "distinct_nontrivial": nontriv, "failures": fails, "samples": samples, "exhaustive": False}
 
 
 def _colex(n_alleles, ploidy):
@@ -89,10 +134,13 @@ def check_index_bijection(tier, seed):
     nontriv = 0
     fails = []
     samples = []
-    for ploidy in range(1, pmax + 1):
-        for n_alleles in range(1, amax + 1):
+    shapes = [(p, a) for p in range(1, pmax + 1) for a in range(1, amax + 1)]
+    # beyond the 100 x 12 coefficient tables: many alleles at low ploidy, high ploidy with few alleles
+    shapes += [(1, 260), (2, 130), (3, 30), (12, 2), (13, 3), (14, 2)] if tier == "quick" else [(1, 400), (2, 200), (3, 45), (12, 3), (13, 3), (14, 3), (20, 2)]
+    for ploidy, n_alleles in shapes:
+        if True:
             N = math.comb(n_alleles + ploidy - 1, ploidy)
-            if N > (4000 if tier == "quick" else 30000):
+            if N > (9000 if tier == "quick" else 40000):
                 continue
             order = _colex(n_alleles, ploidy)
             assert len(order) == N
@@ -102,14 +150,14 @@ def check_index_bijection(tier, seed):
                 ev += 1
                 nontriv += len(set(t)) > 1
                 bad = None
-                if int(J.genotype_alleles_as_index(arr)) != idx:
+                if _call(J.genotype_alleles_as_index, arr) != idx:
                     bad = "genotype_alleles_as_index"
-                elif tuple(int(x) for x in J.index_as_genotype_alleles(idx, ploidy)) != t:
+                elif _tup(J.index_as_genotype_alleles, idx, ploidy) != t:
                     bad = "index_as_genotype_alleles"
                 elif tuple(int(x) for x in g) != t:
                     bad = "increment_genotype order"
                 if bad and len(fails) < 3:
-                    fails.append({"key": "rt/index_bijection/" + bad, "check": "mchap.jitutils." + bad.split()[0], "input": {"genotype": list(t), "index": idx, "ploidy": ploidy, "n_alleles": n_alleles}, "observed": {"as_index": int(J.genotype_alleles_as_index(arr)), "as_alleles": [int(x) for x in J.index_as_genotype_alleles(idx, ploidy)], "enumerator": [int(x) for x in g]}})
+                    fails.append({"key": "rt/index_bijection/" + bad, "check": "mchap.jitutils." + bad.split()[0], "input": {"genotype": list(t), "index": idx, "ploidy": ploidy, "n_alleles": n_alleles}, "observed": {"as_index": _call(J.genotype_alleles_as_index, arr), "as_alleles": _tup(J.index_as_genotype_alleles, idx, ploidy), "enumerator": [int(x) for x in g]}})
                 J.increment_genotype(g)
             if len(samples) < 3 and ploidy == 3:
                 samples.append({"ploidy": ploidy, "n_alleles": n_alleles, "N": N, "last": list(order[-1])})
@@ -118,7 +166,7 @@ def check_index_bijection(tier, seed):
     return {"bound": "ploidy <= %d x alleles <= %d (N bounded), every sorted tuple" % (pmax, amax), "evaluations": ev, "distinct_nontrivial": nontriv, "failures": fails, "samples": samples, "exhaustive": True}
 
 
-CHECKS = [check_comb_grid, check_index_bijection]
+CHECKS = [check_comb_grid, check_index_bijection, check_index_sampled]
 REPLAY = {
     "mchap.jitutils._comb": _search_comb,
     "mchap.jitutils.comb": _search_comb,
